@@ -4,6 +4,7 @@
 -/
 import DeepModel.Model.CollectorDeferred
 import DeepModel.Proofs.CollectorSnap
+import DeepModel.Proofs.CollectorDangling
 
 namespace Collector
 open Heap Extracted.Collector Extracted.CollectorDeferred
@@ -29,7 +30,7 @@ theorem collectWatches_append {H : Heap} (hB : Benign H) (L : Limits) (ws vs : L
       · simp [ih]
 
 theorem cacheAtCallback_eq (c : Cache) : cacheAtCallback c = c := by
-  simp [cacheAtCallback, exitKeepsCache, cacheOnlyGrows]
+  simp [cacheAtCallback, exitKeepsCache, cacheOnlyGrows, cacheRebinds]
 
 /-- **one collection** — a deferred snapshot whose callback runs at a capturing event equals the snapshot of ONE collection
     over the frames, the watches / log fields and, last, the captured value -/
@@ -38,7 +39,7 @@ theorem deferred_eq_collect (H : Heap) (a : ActionIn) (event : String) (value : 
     deferredSnapshot H a event value =
       collect H ⟨a.limits, a.frames, a.watches ++ [⟨.capture, event, value⟩]⟩ := by
   have hB := benign_all H
-  unfold deferredSnapshot collect collectFrom
+  unfold deferredSnapshot deferredSnapshot2 collect collectFrom
   simp only [collectFrames_nofail hB, collectWatches_nofail hB, he, if_true, cacheAtCallback_eq]
   rw [collectWatches_append hB]
 
@@ -46,7 +47,7 @@ theorem deferred_eq_collect (H : Heap) (a : ActionIn) (event : String) (value : 
 theorem deferred_other_event (H : Heap) (a : ActionIn) (event : String) (value : ObjId)
     (he : callbackCaptureEvents.contains event = false) : deferredSnapshot H a event value = collect H a := by
   have hB := benign_all H
-  unfold deferredSnapshot collect collectFrom
+  unfold deferredSnapshot deferredSnapshot2 collect collectFrom
   simp only [collectFrames_nofail hB, collectWatches_nofail hB, he]
   simp
 
@@ -57,5 +58,43 @@ theorem deferred_is_collect (H : Heap) (a : ActionIn) (event : String) (value : 
   cases he : callbackCaptureEvents.contains event with
   | true => exact ⟨_, deferred_eq_collect H a event value he⟩
   | false => exact ⟨a.watches, deferred_other_event H a event value he⟩
+
+/-- **two heaps** — what survives when the host changes recorded objects between the tracepoint's line (`H`) and the
+    completing event (`H'`): every heap-independent invariant of the action (`SnapFacts`: count, recording depth, one entry per
+    object and id, cache injective, every reference in the cache) and the covering of the cache by the table up to the locals
+    dicts of collected frames. -/
+theorem deferred2_facts {H H' : Heap} {a : ActionIn} {event : String} {value : ObjId} {s : Snapshot}
+    (h : deferredSnapshot2 H H' a event value = .ok s) :
+    ∃ c, SnapFacts a s c ∧ Cov (localsOf a.frames) c s.table := by
+  have hB := benign_all H
+  have hB' := benign_all H'
+  have hLO : ∀ f ∈ a.frames, f.collect = true → f.locals ∈ localsOf a.frames := by
+    intro f hf hc
+    simp only [localsOf, List.mem_map, List.mem_filter]
+    exact ⟨f, ⟨hf, hc⟩, rfl⟩
+  have ff := collectFrames_facts H a.frames (AInv.nil a.limits)
+  have fl := collectFrames_len H a.limits a.frames [] [] (by simp)
+  have fc := collectFrames_cov (H := H) (L := a.limits) a.frames hLO (AInv.nil a.limits) (fun p hp => by simp at hp)
+  have wf := collectWatches_facts H a.watches ff.inv
+  have wl := collectWatches_len H a.limits a.watches _ _ fl
+  have wc := collectWatches_cov (H := H) (L := a.limits) a.watches fc
+  unfold deferredSnapshot2 collectFrom at h
+  simp only [collectFrames_nofail hB, collectWatches_nofail hB, collectWatches_nofail hB', cacheAtCallback_eq] at h
+  split at h
+  · simp only [Outcome.ok.injEq] at h
+    subst h
+    have wf2 := collectWatches_facts H' [⟨.capture, event, value⟩] wf.inv
+    have wl2 := collectWatches_len H' a.limits [⟨.capture, event, value⟩] _ _ wl
+    have wc2 := collectWatches_cov (H := H') (L := a.limits) [⟨.capture, event, value⟩] wc
+    refine ⟨_, ⟨wf2.inv, wl2, ?_, ?_⟩, wc2⟩
+    · intro vars hv x hx
+      exact ext_mem wf2.ext (ext_mem wf.ext (ff.refs vars hv x hx))
+    · intro w hw v hv
+      rcases List.mem_append.mp hw with hw | hw
+      · exact ext_mem wf2.ext (wf.outs w hw v hv)
+      · exact wf2.outs w hw v hv
+  · simp only [Outcome.ok.injEq] at h
+    subst h
+    exact ⟨_, ⟨wf.inv, wl, fun vars hv x hx => ext_mem wf.ext (ff.refs vars hv x hx), wf.outs⟩, wc⟩
 
 end Collector
